@@ -2,19 +2,20 @@
 # usage: tools_seed.sh <seed dir with patch.diff + demo.py> <PID> [more PIDs]
 # confirms a seeded change in a scratch worktree (tests pass, demo fails with / passes without), then runs the checks on it
 SEED="$1"; shift
-WT=/tmp/vfseed
+WT=${VFSEED_WT:-/tmp/vfseed}
+T0=/tmp/$(basename $WT)
 git -C /repo worktree remove --force $WT >/dev/null 2>&1; rm -rf $WT
 git -C /repo worktree add -q --detach $WT HEAD || exit 9
 cd $WT
-/venv/bin/python "$SEED/demo.py" >/tmp/vfseed_demo0.txt 2>&1; D0=$?
+/venv/bin/python "$SEED/demo.py" >${T0}_demo0.txt 2>&1; D0=$?
 git apply "$SEED/patch.diff" || { echo "PATCH DOES NOT APPLY"; exit 9; }
-/venv/bin/python -m pytest -q -p no:cacheprovider -x >/tmp/vfseed_tests.txt 2>&1; T=$?
-/venv/bin/python "$SEED/demo.py" >/tmp/vfseed_demo1.txt 2>&1; D1=$?
-echo "seed=$SEED tests_exit=$T demo_unpatched=$D0 demo_patched=$D1 ($(tail -1 /tmp/vfseed_tests.txt))"
+/venv/bin/python -m pytest -q -p no:cacheprovider -x >${T0}_tests.txt 2>&1; T=$?
+/venv/bin/python "$SEED/demo.py" >${T0}_demo1.txt 2>&1; D1=$?
+echo "seed=$SEED tests_exit=$T demo_unpatched=$D0 demo_patched=$D1 ($(tail -1 ${T0}_tests.txt))"
 cd /verif
 for P in "$@"; do
-  VF_REPO=$WT timeout 1500 ./vf check $P > /tmp/vfseed_check_$P.txt 2>&1; C=$?
-  echo "  check $P exit=$C violations=$(grep -c '^VIOLATION' /tmp/vfseed_check_$P.txt) confirmed=$(grep '^VIOLATION' /tmp/vfseed_check_$P.txt | grep -vc no-failing) undecided=$(grep -c '^UNDECIDED' /tmp/vfseed_check_$P.txt) failures=$(grep -c '^CHECKER-FAILURE' /tmp/vfseed_check_$P.txt)"
-  grep '^VIOLATION\|^UNDECIDED\|^CHECKER' /tmp/vfseed_check_$P.txt | head -3 | cut -c1-220
+  VF_REPO=$WT timeout 1500 ./vf check $P > ${T0}_check_$P.txt 2>&1; C=$?
+  echo "  check $P exit=$C violations=$(grep -c '^VIOLATION' ${T0}_check_$P.txt) confirmed=$(grep '^VIOLATION' ${T0}_check_$P.txt | grep -vc no-failing) undecided=$(grep -c '^UNDECIDED' ${T0}_check_$P.txt) failures=$(grep -c '^CHECKER-FAILURE' ${T0}_check_$P.txt)"
+  grep '^VIOLATION\|^UNDECIDED\|^CHECKER' ${T0}_check_$P.txt | head -3 | cut -c1-220
 done
 git -C /repo worktree remove --force $WT >/dev/null 2>&1; rm -rf $WT
